@@ -25,14 +25,20 @@ finite-difference operators satisfy them only up to truncation error — continu
        numerical oracle uses); s_Riemann_down3_antisymm_first, s_Riemann_down3_pair_exchange;
        s_Ricci_down3_{dflt,alt}_symm: both alternatives of `s_Ricci_down3` are symmetric.
 
-STILL NOT PROVEN: `R_ij = R̃_ij + R^φ_ij` and `s_Ricci_down3_bssnok` = Ricci tensor of γ̃ (T12, BSSNOK part);
-the second Bianchi identity; Lie_beta input validation; convergence order; round-off.
+  T12 (BSSNOK) ricci_conformal_split: s_Ricci_down3 (default alternative) = Ricci tensor of the code's conformal
+       connection `s_Gamma_udd3_bssnok` + the code's `s_Ricci_down3_phi`  (the conformal-transformation formula of
+       the Ricci tensor, Alcubierre (2.8.16) with R̃_ij read as the Ricci tensor of the connection Γ̃).
+
+STILL NOT PROVEN: that `s_Ricci_down3_bssnok` (Alcubierre (2.8.17), written with Γ̃^i = −∂_jγ̃^{ij}) is the Ricci tensor
+of Γ̃ / of γ̃ (needs det γ̃ = 1 and the chain rule for the opaque power/log); the second Bianchi identity;
+convergence order; round-off.  Lie_beta input validation: Props/C05c.lean.
 -/
 import AurelVerif.Props.C05
 import AurelVerif.Lemmas.C05Raise2
 import AurelVerif.Lemmas.C05Riem
 import AurelVerif.Lemmas.C05Div
 import AurelVerif.Lemmas.C05Curl2
+import AurelVerif.Lemmas.C05Conf
 import AurelVerif.Lemmas.C04Gup
 
 set_option linter.unusedSimpArgs false
@@ -45,7 +51,8 @@ set_option linter.unnecessarySeqFocus false
 namespace AurelVerif.C05
 open AurelVerif.Gen.Core AurelVerif.Tensor AurelVerif.CoreTac AurelVerif.C08 AurelVerif.Spec.Covd
 open AurelVerif.C05L (SymLow dbeta LCuud3 curlRaw MetricOK ProdRuleBeta ProdRuleInv ProdRuleRaise Deriv
-  conL conR con1 ProdRuleL ProdRuleR ProdRule1 CurvRules DComm DivRules trDgamma GupSplit curlSpatial)
+  conL conR con1 ProdRuleL ProdRuleR ProdRule1 CurvRules DComm DivRules trDgamma GupSplit curlSpatial
+  ConfRules ConfWeights uVec)
 
 variable {K : Type} [Field K]
 
@@ -230,6 +237,26 @@ theorem sqrt_split_of_ordered {F : Type} [Field F] [LinearOrder F] [IsStrictOrde
     (h2 : e.sqrtF e.gammadet * e.sqrtF e.gammadet = e.gammadet) (p2 : 0 ≤ e.sqrtF e.gammadet) :
     e.sqrtF (-e.gdet) = e.alpha * e.sqrtF e.gammadet :=
   C05L.sqrt_split_of_ordered e ha hgdet h1 p1 h2 p2
+
+/-! ## T12 (BSSNOK): conformal decomposition of the Ricci tensor — Lemmas/C05Conf.lean -/
+
+/-- `ConfRules e` (Leibniz expansion of `∂_cΓ̃^k_ij` for `Γ̃ = Γ − 2(δ∂φ + δ∂φ − γγ⁻¹∂φ)`, commuting second
+derivatives of φ) holds for a derivation with commuting partial derivatives when `s_Gamma_udd3_bssnok` is the code's. -/
+theorem confRules_of_deriv (e : Env K) (hD : Deriv e.D) (hc : DComm e.D)
+    (hB : e.s_Gamma_udd3_bssnok = s_Gamma_udd3_bssnok e) : ConfRules e := C05L.confRules_of_deriv e hD hc hB
+
+/-- `ConfWeights e` (`γ̃_ij γ̃^{kl} = γ_ij γ^{kl}`) holds for the code's conformal metric and inverse when ψ ≠ 0. -/
+theorem conf_weights_of_code (e : Env K) (hpsi : e.psi_bssnok ≠ 0) (hgd : e.gammadown3_bssnok = gammadown3_bssnok e)
+    (hgu : e.gammaup3_bssnok = gammaup3_bssnok e) : ConfWeights e := C05L.conf_weights_of_code e hpsi hgd hgu
+
+/-- **`R_ij = Ricci(Γ̃)_ij + R^φ_ij`**: the code's default `s_Ricci_down3` (from the physical connection) equals the
+Ricci tensor `R̃^a_{iaj}` of the code's conformal connection `s_Gamma_udd3_bssnok` ((2.8.14)) plus the code's
+`s_Ricci_down3_phi` ((2.8.18)).  Layer B (`ConfRules`, `ProdRuleInv`); `ConfWeights` is algebraic. -/
+theorem ricci_conformal_split (e : Env K) (h : MetricOK e) (h2 : (2 : K) ≠ 0) (hp : ProdRuleInv e)
+    (hB : e.s_Gamma_udd3_bssnok = s_Gamma_udd3_bssnok e) (hW : ConfWeights e) (hr : ConfRules e) (b d : Fin 3) :
+    s_Ricci_down3__dflt e b d
+      = ricci (riemann e.D e.s_Gamma_udd3_bssnok) b d + s_Ricci_down3_phi e b d :=
+  C05L.ricci_conformal_split e h h2 hp hB hW hr b d
 
 /-! ## Non-vacuity -/
 
@@ -428,6 +455,79 @@ example : 0 < exC.alpha ∧ exC.gdet = gdet__dflt exC
     ∧ exC.sqrtF (-exC.gdet) * exC.sqrtF (-exC.gdet) = -exC.gdet ∧ 0 ≤ exC.sqrtF (-exC.gdet)
     ∧ exC.sqrtF exC.gammadet * exC.sqrtF exC.gammadet = exC.gammadet ∧ 0 ≤ exC.sqrtF exC.gammadet := by
   refine ⟨?_, ?_, ?_, ?_, ?_, ?_⟩ <;> (exC_simp; norm_num)
+
+/-! ### T12 (BSSNOK): conformally flat point `γ = 2δ` (`∂γ = 4`), `γ⁻¹ = ½δ` (`∂γ⁻¹ = −1`), `γ̃ = δ`, `φ = 5` with
+`∂_iφ = 3`, `∂_i∂_jφ = 7`; `Γ^i_kl = δ_il + δ_ik − δ_kl ∈ {1, −1, 0}`, `Γ̃ = Γ − 6(δ_ki + δ_kj − δ_ij) ∈ {−5, 5, 0}`;
+table (all axes): `2 ↦ 4`, `½ ↦ −1`, `5 ↦ 3`, `3 ↦ 7`, `−1 ↦ −11`, `−5 ↦ −14`. -/
+
+def exDF (x : ℚ) : ℚ :=
+  if x = 2 then 4 else if x = 1 / 2 then -1 else if x = 5 then 3 else if x = 3 then 7 else if x = -1 then -11
+  else if x = -5 then -14 else 0
+
+def exF0 : Env ℚ :=
+  { (Env.zero : Env ℚ) with
+    D := fun _ x => exDF x, phi_bssnok := 5,
+    gammadown3 := vec3 (vec3 2 0 0) (vec3 0 2 0) (vec3 0 0 2),
+    gammaup3 := vec3 (vec3 (1 / 2) 0 0) (vec3 0 (1 / 2) 0) (vec3 0 0 (1 / 2)),
+    gammadown3_bssnok := vec3 (vec3 1 0 0) (vec3 0 1 0) (vec3 0 0 1),
+    gammaup3_bssnok := vec3 (vec3 1 0 0) (vec3 0 1 0) (vec3 0 0 1) }
+def exF1 : Env ℚ := { exF0 with s_Gamma_udd3 := s_Gamma_udd3 exF0 }
+def exF : Env ℚ := { exF1 with s_Gamma_udd3_bssnok := s_Gamma_udd3_bssnok exF1 }
+
+theorem exF_D : exF.D = fun _ x => exDF x := rfl
+theorem exF_phi : exF.phi_bssnok = 5 := rfl
+theorem exF_gd : exF.gammadown3 = vec3 (vec3 2 0 0) (vec3 0 2 0) (vec3 0 0 2) := rfl
+theorem exF_gu : exF.gammaup3 = vec3 (vec3 (1 / 2) 0 0) (vec3 0 (1 / 2) 0) (vec3 0 0 (1 / 2)) := rfl
+theorem exF_gtd : exF.gammadown3_bssnok = vec3 (vec3 1 0 0) (vec3 0 1 0) (vec3 0 0 1) := rfl
+theorem exF_gtu : exF.gammaup3_bssnok = vec3 (vec3 1 0 0) (vec3 0 1 0) (vec3 0 0 1) := rfl
+theorem exF_G : exF.s_Gamma_udd3 = s_Gamma_udd3 exF0 := rfl
+theorem exF_Gt : exF.s_Gamma_udd3_bssnok = s_Gamma_udd3_bssnok exF1 := rfl
+theorem exF1_D : exF1.D = fun _ x => exDF x := rfl
+theorem exF1_phi : exF1.phi_bssnok = 5 := rfl
+theorem exF1_gd : exF1.gammadown3 = vec3 (vec3 2 0 0) (vec3 0 2 0) (vec3 0 0 2) := rfl
+theorem exF1_gu : exF1.gammaup3 = vec3 (vec3 (1 / 2) 0 0) (vec3 0 (1 / 2) 0) (vec3 0 0 (1 / 2)) := rfl
+theorem exF1_G : exF1.s_Gamma_udd3 = s_Gamma_udd3 exF0 := rfl
+theorem exF0_D : exF0.D = fun _ x => exDF x := rfl
+theorem exF0_gd : exF0.gammadown3 = vec3 (vec3 2 0 0) (vec3 0 2 0) (vec3 0 0 2) := rfl
+theorem exF0_gu : exF0.gammaup3 = vec3 (vec3 (1 / 2) 0 0) (vec3 0 (1 / 2) 0) (vec3 0 0 (1 / 2)) := rfl
+
+macro "exF_simp" : tactic =>
+  `(tactic| simp only [exF_Gt, exF_G, exF_D, exF_phi, exF_gd, exF_gu, exF_gtd, exF_gtu, exF1_D, exF1_phi, exF1_gd, exF1_gu,
+      exF1_G, exF0_D, exF0_gd, exF0_gu, exDF, uVec, delta, core_unfold, Fin.sum_univ_three, Fin.isValue, Fin.reduceEq,
+      ↓reduceIte, if_true, if_false])
+
+set_option maxHeartbeats 1000000 in
+/-- all hypotheses of `ricci_conformal_split` hold at `exF`; `Γ̃^0_{00} = −5`, `D̃_0D̃_0φ = 7 − 3·5 = −8`, `R^φ_{00} = 16 + 48 + 36 − 108 = −8`. -/
+example : MetricOK exF ∧ (2 : ℚ) ≠ 0 ∧ ProdRuleInv exF ∧ exF.s_Gamma_udd3_bssnok = s_Gamma_udd3_bssnok exF
+    ∧ ConfWeights exF ∧ ConfRules exF ∧ exF.s_Gamma_udd3_bssnok 0 0 0 = -5 ∧ s_Ricci_down3_phi exF 0 0 = -8 := by
+  refine ⟨⟨?_, ?_, ?_, ?_⟩, by norm_num, ?_, ?_, ?_, ⟨?_, ?_⟩, ?_, ?_⟩
+  · cases3 <;> cases3 <;> exF_simp
+  · cases3 <;> cases3 <;> exF_simp
+  · cases3 <;> cases3 <;> (exF_simp; norm_num)
+  · funext i k l; revert i k l; cases3 <;> cases3 <;> cases3 <;> exF_simp
+  · cases3 <;> cases3 <;> cases3 <;> (exF_simp; norm_num)
+  · funext i k l; revert i k l; cases3 <;> cases3 <;> cases3 <;> exF_simp
+  · cases3 <;> cases3 <;> cases3 <;> cases3 <;> (exF_simp; try norm_num)
+  · intro i j; exF_simp
+  · cases3 <;> cases3 <;> cases3 <;> cases3 <;> (exF_simp; norm_num)
+  · exF_simp; norm_num
+  · exF_simp; norm_num
+
+/-- hypotheses of `conf_weights_of_code`: ψ = 2, `γ̃ = ψ⁻⁴γ`, `γ̃⁻¹ = ψ⁴γ⁻¹` by the code's formulas. -/
+def exW0 : Env ℚ :=
+  { (Env.zero : Env ℚ) with
+    psi_bssnok := 2,
+    gammadown3 := vec3 (vec3 2 0 0) (vec3 0 2 0) (vec3 0 0 2),
+    gammaup3 := vec3 (vec3 (1 / 2) 0 0) (vec3 0 (1 / 2) 0) (vec3 0 0 (1 / 2)) }
+def exW : Env ℚ := { exW0 with gammadown3_bssnok := gammadown3_bssnok exW0, gammaup3_bssnok := gammaup3_bssnok exW0 }
+
+example : exW.psi_bssnok ≠ 0 ∧ exW.gammadown3_bssnok = gammadown3_bssnok exW
+    ∧ exW.gammaup3_bssnok = gammaup3_bssnok exW ∧ exW.gammadown3_bssnok 0 0 = 1 / 8 := by
+  refine ⟨?_, ?_, ?_, ?_⟩
+  · simp only [exW, exW0]; norm_num
+  · funext i j; revert i j; cases3 <;> cases3 <;> (simp only [exW, exW0, core_unfold])
+  · funext i j; revert i j; cases3 <;> cases3 <;> (simp only [exW, exW0, core_unfold])
+  · simp only [exW, exW0, core_unfold]; norm_num
 
 /-- `DComm` is satisfiable together with `Deriv` (zero derivation on ℚ, the only one; the Layer-B theorems use the
 `CurvRules` / `DivRules` / `ProdRule*` instances, satisfied by the non-zero tables above). -/
